@@ -172,6 +172,10 @@ def obligations(ctx, cfg):
            ConsumerRace(ctx, 'C12.d-race-stream-delete', ['stream'], ['delete'], n_out=0, n_back=0)]
     # C12.c relies on: while a handle to the topic exists, the topic actor answers RemoveSubscription (so SubscriptionActor::delete
     # gets past its first await and reaches notify_deleted).  That is a property of the topic actor's loop:
+    # a DeleteSubscription that is in the actor's mailbox is carried out whether or not its caller is still there (else the
+    # subscription is left marked deleted with its consumers never told)
+    from props.actor_steps import ReceiveDropped
+    obs.append(ReceiveDropped(ctx, 'Delete', id_='C12.f-delete-completes-without-its-caller'))
     from props.C07 import TopicActorLoop
     obs += [TopicActorLoop(ctx, v, 'C12.e-topic-actor-serves') for v in ('Delete', 'RemoveSubscription')]
     if cfg['tier'] == 'thorough':
